@@ -96,6 +96,10 @@ fn main() {
                 let resp = sdharness::h_unord::uarr(w, &items[1..]);
                 writeln!(out, "{}\t{}", req, resp).unwrap();
             }
+            Some(w @ ("uarr-dec" | "umap-dec")) => {
+                let resp = sdharness::h_unord::wire_dec(w, &items[1..]);
+                writeln!(out, "{}\t{}", req, resp).unwrap();
+            }
             Some(w @ ("umap-cmp" | "umap-apply3")) => {
                 let resp = sdharness::h_unord::umap(w, &items[1..]);
                 writeln!(out, "{}\t{}", req, resp).unwrap();
